@@ -13,5 +13,8 @@ CONSTANTS
   UseFollower = TRUE
   UseBounded = TRUE
   C0 = "c1"
+  UseRace = TRUE
+  MaxElect = 2
+  StrandedKnown = TRUE
   UseBad = TRUE
 CHECK_DEADLOCK FALSE
